@@ -454,7 +454,7 @@ mismatch between values and axes""".format(inferred, self.values.shape)
     # Internal constructor, useful for subclassing
     #
     @classmethod
-    def _constructor(cls, values, axes, **metadata):
+    def _constructor(cls, *args, **metadata):
         """ Internal API for the constructor: check whether a pre-defined class exists
 
         values        : array-like
@@ -470,7 +470,14 @@ mismatch between values and axes""".format(inferred, self.values.shape)
         #TODO: use the __new__ operator to bypass all checkings in __init__
         # just check consistency between axes and values shape
 
-        return cls(values, axes, **metadata)
+        # metadata may use any name (including 'values', 'axes', 'dtype'...): it
+        # must neither clash with nor be mistaken for a constructor argument
+        args = list(args)
+        for name in ('values', 'axes')[len(args):]: # arguments passed by keyword
+            args.append(metadata.pop(name))
+        obj = cls(*args)
+        obj.attrs.update(metadata)
+        return obj
 
     def copy(self, shallow=False):
         """ copy of the object and update arguments
